@@ -79,7 +79,8 @@ def faults():
 
 def bounds(tier):
     return {"triples": len(triples()), "faults_per_triple": str(len(faults())) + (" (first 3 triples; a 1/23 slice + genuine for the others)" if tier != "thorough" else ""),
-            "key_forms": 2, "scenarios": ["fresh", "after-previous-auth", "same credentials, authentication expired", "live connection with stale data queued"]}
+            "key_forms": 2, "scenarios": ["fresh", "after-previous-auth", "same credentials, authentication expired", "live connection with stale data queued",
+                          "expired authentication on a connection that carried > 65536 packets"]}
 
 
 def shards(tier):
@@ -89,6 +90,8 @@ def shards(tier):
         for form in (0, 1):
             for scen in (0, 1, 2, 3):
                 out.append((t, form, scen, (t >= 3 or scen == 3) and tier != "thorough"))
+    out.append((0, 0, 4, True))
+    out.append((9, 1, 4, True))
     return out
 
 
@@ -163,6 +166,17 @@ def execute(tidx: int, form: int, scen: int, fault):
             conn.deliver(rc.v3_build_plain(rc.T_HANDSHAKE_RESP, 0, rc.handshake_reply_body(key, filler("c06/stale-nonce", 32))), 0.002)
             import asyncio as _a
             await _a.sleep(0.01)
+        if scen == 4:
+            # a connection that has carried more than 2^16 packets, whose authentication then expires
+            await ac.authenticate(token, key)
+            await ac.refresh()
+            dev.on_enc_request = lambda conn, p, entry: None
+            for _ in range(66000):
+                ac._lan._protocol.write(b"\xaa\x01\x02")
+            dev.on_enc_request = None
+            import asyncio as _a
+            await _a.sleep(0.05)
+            w.loop.jump(13 * 3600)
         before = (ac.token, ac.key)
         marks["start"] = len(dev.rx)
         state["armed"] = True
@@ -227,7 +241,7 @@ def judge(st: Stats, case, obs, dev, marks, tidx, scen, fault):
             if e.get("ptype") != rc.T_HANDSHAKE_REQ or e.get("token") != token:
                 prob = "something other than a handshake request with the token was sent"
                 break
-    if prob is None and scen in (0, 2):  # scen 1/3: an older session exists and stays usable
+    if prob is None and scen in (0, 2, 4):  # scen 1/3: an older session exists and stays usable
         # session must still be unauthenticated: no data packet may precede a new handshake request
         for e in post:
             if e.get("ptype") == rc.T_HANDSHAKE_REQ:
@@ -251,11 +265,11 @@ def run_shard(shard, tier) -> Stats:
     fl = faults()
     if light:
         # quick tier: for the extra credential triples run the genuine reply and a thin slice of the faults
-        fl = [f for i, f in enumerate(fl) if f[0] == "genuine" or i % 23 == tidx % 23]
+        fl = [f for i, f in enumerate(fl) if f[0] == "genuine" or i % (23 if scen != 4 else 331) == tidx % 23]
     for fault in fl:
         case = {"triple": tidx, "form": form, "scenario": scen, "fault": list(fault)}
         obs, dev, marks = execute(tidx, form, scen, fault)
-        if det.due():
+        if det.due() and scen != 4:
             o2, _, _ = execute(tidx, form, scen, fault)
             det.check(obs, o2, case)
         oc = judge(st, case, obs, dev, marks, tidx, scen, fault)
